@@ -168,6 +168,33 @@ def roundtrip_plan(chk, exe, mode, shapes, builds_extra=()):
     ev1, _ = run_driver(exe, enc_lines, timeout=900)
     outs = {e['id']: e for e in ev1 if e.get('e') == 'Enc'}
     groups = []
+    # in-band sentinels: plaintexts chosen so that an aligned word of the CIPHERTEXT is FF FF FF FF or 00 00 00 00 (the
+    # keystream of word j does not depend on plaintext word j, so m'[j] = m[j] ^ c[j] ^ target), encrypted and decrypted;
+    # and the same encryption once more into a buffer that still holds the first result's tag behind a scribbled body
+    xg = []
+    for i, sh in enumerate(shapes):
+        o = outs.get(f"e{i}")
+        if o is None or sh.get('alias') or sh['mlen'] >= 300:
+            continue
+        if mode == 'aead' and i % 17 == 3 and sh['mlen'] >= 4:
+            c0, m0 = bytes(o['out']), datas[i]['m']
+            for ti, target in enumerate((b'\xff' * 4, bytes(4))):
+                j = ((i // 17) + ti) % (sh['mlen'] // 4)
+                m2 = bytearray(m0)
+                for b in range(4):
+                    m2[4 * j + b] = m0[4 * j + b] ^ c0[4 * j + b] ^ target[b]
+                xg.append((i, ti, dict(datas[i], m=bytes(m2))))
+        if i % 19 == 5:
+            groups.append([enc_line(f"a{i}", mode, sh, datas[i], keep=0) + " again=1"])
+    if xg:
+        ev2, _ = run_driver(exe, [enc_line(f"x{i}-{ti}", mode, shapes[i], d2) for i, ti, d2 in xg], timeout=900)
+        o2 = {e['id']: e for e in ev2 if e.get('e') == 'Enc'}
+        g = []
+        for i, ti, d2 in xg:
+            g.append(enc_line(f"x{i}-{ti}", mode, shapes[i], d2, keep=0))
+            if f"x{i}-{ti}" in o2:
+                g.append(dec_line(f"y{i}-{ti}", mode, shapes[i], d2, bytes(o2[f"x{i}-{ti}"]['out'])))
+        groups.extend(chunks(g, 12))
     for i, sh in enumerate(shapes):
         if sh['mlen'] >= 100000 and f"e{i}" in outs:      # very long: one event per execution so the shards share them
             groups.append([enc_lines[i]])
@@ -646,7 +673,8 @@ def check_C09(chk):
             msgs.append((d['ad'], d['m']))                           # exact repeat
             g = []
             for mi, (ad, m) in enumerate(msgs):
-                g.append(enc_line(f"f{fi}-{mode}-{mi}", mode, dict(v=f['v'], alias=mi % 2), dict(d, ad=ad, m=m), keep=1))
+                g.append(enc_line(f"f{fi}-{mode}-{mi}", mode, dict(v=f['v'], alias=mi % 2), dict(d, ad=ad, m=m), keep=1)
+                         + (" again=1" if mi in (0, 2) else ""))       # ... and once more into the buffer that holds the first result's tag
             groups.append(g)
     execs, _ = run_groups(chk, exe, groups)
     base = {json.dumps(ex, sort_keys=True) for ex in execs}
